@@ -161,7 +161,16 @@ def run(ctx: Ctx) -> None:
                     ctx.check(_norm(s1, swap=True) == _norm(s2), "R-C14.1", f"{f.qualname}#copy-guard~drop-guard[{n_guards}]", f"{f.module.rel}:{s1.lineno}",
                               {"copy_guard": ast.unparse(s1.test), "drop_guard": ast.unparse(s2.test)},
                               "the droppable bound of a type parameter is checked differently from the copyable bound")
-    ctx.floor("R-C14.1", "adjacent copy/drop guards", n_guards, 2)
+    # the two known sites (check_inst's fast path, TypeParam.check_arg) are also decided by interpretation on all four capability
+    # classes x all four bounds (c12_inst.py): a copy/drop slip in either shows there even when the guards are not adjacent `if`s
+    from . import c12_inst
+    sub = Ctx("C12", idx, ctx.tier, ctx.seed)
+    if c12_inst.run(sub):
+        o = sub.obligations[-1]
+        ctx.check(o.status == "ok", "R-C14.1", "type-parameter-bounds#copy~drop(check_inst + TypeParam.check_arg, interpreted)", o.where, o.facts,
+                  "the droppable bound of a type parameter is checked differently from the copyable bound")
+    else:
+        ctx.floor("R-C14.1", "adjacent copy/drop guards", n_guards, 2)
 
     # ------------------------------------------------------------ R-C14.2 structural rule
     ptb = idx.find_class("ParametrizedTypeBase", TY)
